@@ -18,7 +18,9 @@ RULE = ('(a) random compiled-rule records (0-5 symbols, terminals/rules, `_` nam
         'engine (Earley dynamic/basic/dynamic_complete, Earley explicit, LALR basic/contextual, CYK) must return a '
         'tree in the oracle\'s set of documented shapings of the derivations of the text (brute-force enumeration on '
         'the EBNF), all equal when there is one derivation; the derivation followed by lark\'s LALR driver is shaped '
-        'by Spec.shape and by the chain-at-each-reduction driver in Coq and must give lark\'s tree. '
+        'by Spec.shape and by the chain-at-each-reduction driver in Coq and must give lark\'s tree; (f) random rule trees '
+        '(symbols, _EMPTY, expansion, expansions): FindRuleSize(keep_all).transform and the _EMPTY count of '
+        'EBNF_to_BNF.maybe against Shape/Ebnf.frs and the longest-alternative count; (r) fixed F18 regression grammars. '
         'non-trivial = distinct (record, config, children) with a filter or expand1 / distinct (grammar, config, text) '
         'whose tree has >= 2 nodes')
 TRUSTED_BASE = ['hand model Shape/Chain.v of parse_tree_builder.py (tied by introspecting lark\'s callback objects and '
@@ -302,7 +304,6 @@ def correspond(ctx):
     DEFER.__init__()
     wide = 3 if ctx.widen else 1
 
-    ctx.note('t_start=%.1f' % (__import__('time').time()-ctx.t0))
     # (r) fixed regression stream: helper rules must not be shared between `!` and plain rules (F18)
     f18_present = False
     for gtext, text in F18_WITNESSES:
@@ -385,7 +386,6 @@ def correspond(ctx):
                                         'tree': sl.show(sl.stree_of(parsers[('earley', 'dynamic', 'resolve')].parse(texts[0])))}})
                 except Exception:
                     pass
-    ctx.note('t_e2e_py=%.1f' % (__import__('time').time()-ctx.t0))
     for term, (gtext, text, ka, mp, tree) in zip(e2e_cases, e2e_meta):
         def h(gtext=gtext, text=text, ka=ka, mp=mp, tree=tree):
             ctx.violation('correspondence:Spec.shape / chain driver vs lark LALR tree',
@@ -393,7 +393,6 @@ def correspond(ctx):
                            'keep_all_tokens': ka, 'maybe_placeholders': mp, 'observed': sl.show(tree)}, False,
                           'Coq shape / driver of the derivation lark followed differs from the tree lark returned')
         DEFER.add('(CaseE2E %s)' % term, ('e2e', h))
-    ctx.note('t_e2e_coq=%.1f' % (__import__('time').time()-ctx.t0))
     # (f) FindRuleSize / maybe against Shape/Ebnf.v ------------------------------------------------------
     find_rule_size_stream(ctx)
 
@@ -401,7 +400,6 @@ def correspond(ctx):
     recs = [sl.random_record(rng, True) for _ in range(ctx.scale(170, 2500) * wide)]
     callback_cases(ctx, recs, 'callback-random', True)
 
-    ctx.note('t_cb_random=%.1f' % (__import__('time').time()-ctx.t0))
     # (b) compiled rules of those grammars against the callback objects --------------------------------
     uniq = {}
     for r in comp_records:
@@ -409,7 +407,6 @@ def correspond(ctx):
     recs = list(uniq.values())
     rng.shuffle(recs)
     callback_cases(ctx, recs[:ctx.scale(100, 1200)], 'callback-compiled', False)
-    ctx.note('t_python_done=%.1f' % (__import__('time').time() - ctx.t0))
     DEFER.run(ctx, 'c03', 'c03_check')
 
 
